@@ -52,10 +52,21 @@ def replay(spec):
     pv = np.array([pd[p] for p in M.get_param_list()])
     t, V = float(v["t"]), float(v["V"])
     vol = spec.get("mode") == "volume"
-    try:
-        term = M.parse_general_expression(text)
-    except Exception as e:
-        return {"reproduced": True, "observed": "rejected: %s: %s" % (type(e).__name__, e), "expected": "a value"}
+    if spec.get("mode") == "reparse":
+        # first a model with the usual species order, then one that declares the species in reverse: same text, same values
+        try:
+            M.parse_general_expression(text)
+            M2 = Model(species=SPECIES[::-1], parameters=[(p, 1.0) for p in PARAMS])
+            term = M2.parse_general_expression(text)
+        except Exception as e:
+            return {"reproduced": True, "observed": "rejected: %s: %s" % (type(e).__name__, e), "expected": "a value"}
+        sv = np.array([float(v["s_" + s]) for s in M2.get_species_list()])
+        pv = np.array([pd[p] for p in M2.get_param_list()])
+    else:
+        try:
+            term = M.parse_general_expression(text)
+        except Exception as e:
+            return {"reproduced": True, "observed": "rejected: %s: %s" % (type(e).__name__, e), "expected": "a value"}
     got = term.py_volume_evaluate(sv, pv, V, t) if vol else term.py_evaluate(sv, pv, t)
     env = {s: float(v["s_" + s]) for s in SPECIES}
     env.update({("_p" if p == "p" else p): pd[p] for p in PARAMS})
